@@ -148,29 +148,34 @@ def splitCname (host : Bytes) (ans : List RR) : Bytes × List RR :=
   | ⟨5, owner, target⟩ :: rest => if owner = host ∧ target ≠ [] then (target, rest) else ([], ans)
   | l => ([], l)
 
-/-- The lookup result a reply stands for, if it has one of the three shapes. -/
-def obsToOut (obs : DnsObs) (host : Bytes) (qt : Nat) : Option Out :=
-  if obs.question ≠ host ∨ obs.rcode ≠ 0 then none
+/-- The lookup result a reply stands for, if it has one of the three shapes.
+`rc` is the rcode the upstream answers with.  A reply that comes from the
+upstream keeps the upstream's rcode — also when it is NXDOMAIN / SERVFAIL /
+REFUSED the original question is restored and the CNAME record comes first. -/
+def obsToOut (obs : DnsObs) (host : Bytes) (qt : Nat) (rc : Nat) : Option Out :=
+  if obs.question ≠ host then none
   else match obs.asked with
     | [] =>
-      -- answered locally
+      -- answered locally: NOERROR whatever the upstream would have said
       let c := (splitCname host obs.answer).1
       let rest := (splitCname host obs.answer).2
       let owner := if c = [] then host else c
-      if rest.all (fun rr => rr.typ == qt && (qt == 1 || qt == 28) && rr.owner == owner) ∧
+      if obs.rcode = 0 ∧
+          rest.all (fun rr => rr.typ == qt && (qt == 1 || qt == 28) && rr.owner == owner) ∧
           ¬ (c ≠ [] ∧ rest = []) then
         some ⟨true, c, rest.map (·.data)⟩
       else none
     | [n] =>
+      if obs.rcode ≠ rc then none
       -- resolved upstream under a canonical name: original question, leading CNAME
-      if n ≠ [] ∧ obs.answer = ⟨5, host, n⟩ :: upstreamAnswer n qt then some ⟨true, n, []⟩
+      else if n ≠ [] ∧ obs.answer = ⟨5, host, n⟩ :: upstreamAnswer n qt rc then some ⟨true, n, []⟩
       -- passed through: the upstream's answer for the name itself, untouched
-      else if n = host ∧ obs.answer = upstreamAnswer host qt then some Out.empty
+      else if n = host ∧ obs.answer = upstreamAnswer host qt rc then some Out.empty
       else none
     | _ => none
 
-def dnsSpecOK (tbl : List Entry) (host : Bytes) (qt : Nat) (obs : DnsObs) : Bool :=
-  match obsToOut obs host qt with
+def dnsSpecOK (tbl : List Entry) (host : Bytes) (qt : Nat) (rc : Nat) (obs : DnsObs) : Bool :=
+  match obsToOut obs host qt rc with
   | some o => specOK tbl (lower host) qt o
   | none => false
 
